@@ -48,6 +48,15 @@ def conn(seed, tier):
         add("blocked", senders=3, persender=2, delay_ms=0, blockwrite=k, feed=1, rclose=True, sizes=[0, 40])
         add("blocked", senders=2, persender=2, delay_ms=2, blockwrite=k, failread=2, feed=2, syncmod=2)
         add("blocked", senders=2, persender=2, delay_ms=0, blockwrite=k, timeout_ms=5, feed=0)
+    # 7. the same over a real TCP connection on loopback (logged net.Conn under transport.NetConn): concurrency, close at arbitrary
+    #    moments, peer end-of-stream, injected failures, read timeout
+    for k in range(12 if tier == "quick" else 60):
+        snd = rng.choice([1, 2, 3, 5, 8])
+        per = rng.choice([1, 2, 3])
+        add("tcp", carrier="tcp", senders=snd, persender=per, delay_ms=rng.choice([0, 1, 5, 20]), close_at=rng.choice([0, 0, rng.randint(1, snd * per)]),
+            syncmod=rng.choice([0, 1, 2, 3]), sizes=rng.choice(sizes[:5]), feed=rng.choice([0, 1, 3]), rclose=rng.random() < 0.3,
+            failwrite=rng.choice([0, 0, 0, 2, 3]), partial=rng.choice([0, 3]), failread=rng.choice([0, 0, 0, 2]), failclose=rng.choice([0, 0, 0, 1]),
+            timeout_ms=rng.choice([0, 0, 0, 5]))
     if tier == "thorough":
         for k in range(120):
             snd = rng.choice([1, 2, 3, 4, 6, 9, 12, 16])
